@@ -151,6 +151,11 @@ func (e *Explore) Finish(rule string, exhaustive bool, extra map[string]any, ass
 	}
 	sort.Strings(sigs)
 	exit, unknown := 0, 0
+	if old, _ := filepath.Glob(filepath.Join(e.Verif, "replays", e.Property, e.Tier+"-*.json")); len(old) > 0 {
+		for _, f := range old {
+			os.Remove(f)
+		}
+	}
 	for i, s := range sigs {
 		v := e.viol[s]
 		if k, ok := known[s]; ok && k.Status == "known" {
